@@ -99,7 +99,15 @@ def main():
                 "check_replay": res.get("replay"),
             }
             json.dump(m, open(os.path.join(dst, "meta.json"), "w"), indent=1, default=str)
-        print(json.dumps(res, indent=1, default=str)[:6000])
+        def clip(o, n=1500):
+            if isinstance(o, str):
+                return o if len(o) <= n else o[:n] + '…'
+            if isinstance(o, list):
+                return [clip(x, n) for x in o[:40]]
+            if isinstance(o, dict):
+                return {k: clip(v, n) for k, v in o.items()}
+            return o
+        print(json.dumps(clip(res), indent=1, default=str))
         return 0
     finally:
         shutil.rmtree(tmp, ignore_errors=True)
